@@ -117,10 +117,10 @@ class Ledger:
 class Ctx:
     def __init__(self, prop, tier, seed, level='exploration'):
         self.prop, self.tier, self.seed, self.level = prop, tier, seed, level
-        # seed of the *fixed universes* (which corpus files get which configuration, which truncations / mutants are taken):
-        # the quick tier is a regression-style run whose fixed part does not move with VERIF_SEED (it was burnt in once and every
-        # alarm triaged); VERIF_SEED there drives the generated programs and layouts.  The thorough tier moves everything.
-        self.useed = DEFAULT_SEED if tier == 'quick' else seed
+        # seed of the *fixed universes* (which corpus files get which configuration, which truncations / mutants are taken).
+        # It does not move with VERIF_SEED: the fixed part of both tiers is a regression-style universe that was burnt in once (every
+        # alarm triaged into a fix or a ledger entry); VERIF_SEED drives the generated programs, layouts, regions and histories.
+        self.useed = DEFAULT_SEED
         self.t0 = time.time()
         self.ledger = Ledger(prop)
         self.evaluations = 0
